@@ -12,7 +12,7 @@ EXPLANATION = (
     "framework outside the reviewed display-only site. Guards: every `x.len() - k` in the shrinker is under an emptiness/length test of the "
     "same vector."
 )
-LEVEL_NOTE = "termination and minimality of simplify, the prefix rule of Cache::get and shortlex monotonicity are arithmetic on runtime values and are not decided (thin claim)"
+LEVEL_NOTE = "termination and minimality of simplify and the prefix rule of Cache::get are arithmetic on runtime values and are not decided; monotonicity is decided only as the form of the acceptance test in `consider`"
 
 TF = "crates/aiken-lang/src/test_framework.rs"
 PL = "crates/aiken-project/src/lib.rs"
@@ -31,6 +31,14 @@ def run(ctx, rep):
     rep.guarded("R16-SEED", lambda: r_seed(sh, rep))
     rep.guarded("R16-PURE", lambda: r_pure(fl, rep))
     rep.guarded("R16-GUARD", lambda: r_guard(sh, rep))
+    rep.rule("R16-SAMEEVAL", "the first run, the shrinker's replays and the final report evaluate the property through one function under one budget (ExBudget::max())", floor=3)
+    rep.guarded("R16-SAMEEVAL", lambda: r_sameeval(sh, rep))
+    rep.rule("R16-MONO", "a replayed candidate replaces the counterexample only under comparisons that say it is no longer / lexicographically smaller than the current one", floor=2)
+    rep.guarded("R16-MONO", lambda: r_mono(sh, rep))
+    rep.rule("R16-REPLAY", "recorded choices and replayed choices use inverse byte orders: one reversal when reading a seeded PRNG's choices, one when building a replayed PRNG, cursor = number of choices", floor=4)
+    rep.guarded("R16-REPLAY", lambda: r_replay(sh, rep))
+    rep.rule("R16-ITER", "the iteration counter is decremented exactly once per executed run, unconditionally, and the loop stops at the first kept counterexample", floor=2)
+    rep.guarded("R16-ITER", lambda: r_iter(sh, rep))
 
 
 def _mode_table(sh, m):
@@ -224,3 +232,153 @@ def r_guard(sh, rep):
                 rec(v, guards)
 
     rec(f["body"], [])
+
+
+# ---------------------------------------------------------------------------------------------------------
+# R16-MONO: the acceptance test of Counterexample::consider
+# ---------------------------------------------------------------------------------------------------------
+def r_mono(sh, rep):
+    """`consider` is the only writer of the counterexample (R16-WRITER). The reported counterexample is no larger than the
+    first failing case iff every replacement goes to a sequence that is not larger; so the assignment under Status::Keep
+    must sit under a condition made only of comparisons `candidate (<|<=) current` — on the lengths or on the sequences
+    themselves (slices compare lexicographically) — joined by || / &&. A comparison turned the other way, or no condition
+    at all, lets shrinking grow the counterexample."""
+    f = find_method(sh.file(TF), "Counterexample", "consider")
+    rep.touched(TF, "Counterexample::consider")
+    cand = [i["pat"].get("name") for i in f["sig"]["inputs"] if isinstance(i.get("pat"), dict) and i["pat"].get("name") not in (None, "self")]
+    if not cand:
+        raise AnchorMissing("candidate parameter of Counterexample::consider")
+    c = cand[0]
+    assigns = [a for a in walk(f["body"]) if a.get("k") == "Assign" and sh.nsrc(TF, a["l"]) == "self.choices"]
+    if not assigns:
+        raise AnchorMissing("assignment to self.choices in consider")
+    guards = []
+    for n in walk(f["body"]):
+        if n.get("k") == "If" and any(x is assigns[0] for x in walk(n["then"])):
+            guards.append(n)
+    rep.check(bool(guards), "R16-MONO", "consider#replacement-is-conditional", sh.loc(TF, assigns[0]), "the counterexample is replaced without any size test: a kept candidate that is longer and larger than the current one would be accepted")
+    if not guards:
+        return
+    g = guards[-1]  # innermost
+    atoms = []
+
+    def split(e):
+        if e.get("k") == "Binary" and e["op"] in ("||", "&&"):
+            split(e["l"])
+            split(e["r"])
+        elif e.get("k") == "Paren":
+            split(e["e"])
+        else:
+            atoms.append(e)
+
+    split(g["cond"])
+    bad = []
+    for a in atoms:
+        ok = False
+        if a.get("k") == "Binary" and a["op"] in ("<", "<=", ">", ">="):
+            l, r = sh.nsrc(TF, a["l"]), sh.nsrc(TF, a["r"])
+            lc, rc = bool(re.search(r"(?<![\w.])%s\b" % re.escape(c), l)) and "self." not in l, bool(re.search(r"(?<![\w.])%s\b" % re.escape(c), r)) and "self." not in r
+            ls, rs = "self.choices" in l, "self.choices" in r
+            same_measure = (".len()" in l) == (".len()" in r)
+            if same_measure and ((a["op"] in ("<", "<=") and lc and rs) or (a["op"] in (">", ">=") and ls and rc)):
+                ok = True
+        if not ok:
+            bad.append(sh.nsrc(TF, a))
+    rep.check(not bad and bool(atoms), "R16-MONO", "consider#accepts-only-not-larger-candidates", sh.loc(TF, g), "the acceptance test of consider contains %s, which is not of the form `candidate (<|<=) current` on lengths or sequences: shrinking can then move to a larger choice sequence and the reported counterexample may exceed the first failing case" % bad, sample={"atoms": [sh.nsrc(TF, a) for a in atoms]})
+
+
+# ---------------------------------------------------------------------------------------------------------
+# R16-REPLAY: byte order of recorded vs replayed choices
+# ---------------------------------------------------------------------------------------------------------
+def _reversals(node):
+    return [n for n in walk(node) if n.get("k") == "MethodCall" and n["m"] in ("rev", "reverse")]
+
+
+def r_replay(sh, rep):
+    """On chain a seeded PRNG prepends each drawn byte (newest first); a replayed PRNG reads its byte string from the end
+    with a cursor that starts at the number of choices. Off chain the recorded sequence is kept oldest-first (that is the
+    order `simplify` works on and `choices <` compares). So: reading a Seeded PRNG's choices reverses once, a Replayed one
+    not at all; building a Replayed PRNG reverses once into the byte string, keeps its own copy un-reversed, and sets the
+    cursor to choices.len(). An odd reversal on either side makes the replay of a recorded sequence generate another
+    value than the one that failed (only palindromic sequences survive)."""
+    fj = sh.file(TF)
+    ch = find_method(fj, "Prng", "choices")
+    rep.touched(TF, "Prng::choices")
+    m = next(matches_in(ch["body"]), None)
+    if m is None:
+        raise AnchorMissing("match in Prng::choices")
+    per = {}
+    for a in m["arms"]:
+        for alt in pat_alts(a["pat"]):
+            per[last(pat_head(alt) or "_")] = len(_reversals(a["body"]))
+    rep.check(per.get("Seeded") == 1 and per.get("Replayed") == 0, "R16-REPLAY", "Prng::choices#reversal-parity", sh.loc(TF, ch), "Prng::choices must reverse a Seeded PRNG's (newest-first) record exactly once and leave a Replayed one as is; found %s" % per, sample=per)
+    fc = find_method(fj, "Prng", "from_choices")
+    rep.touched(TF, "Prng::from_choices")
+    par = [i["pat"].get("name") for i in fc["sig"]["inputs"] if isinstance(i.get("pat"), dict)][0]
+    lit = [n for n in walk(fc["body"]) if n.get("k") == "Struct" and last(n["p"]) == "Replayed"]
+    if not lit:
+        raise AnchorMissing("Prng::Replayed literal in from_choices")
+    fields = {fi["name"]: fi["e"] for fi in lit[0]["fields"]}
+    kept = fields.get("choices")
+    rep.check(kept is not None and not _reversals(kept) and re.search(r"\b%s\b" % re.escape(par), sh.nsrc(TF, kept)), "R16-REPLAY", "from_choices#own-copy-unreversed", sh.loc(TF, lit[0]), "the Replayed PRNG's own `choices` must be the given sequence as is")
+    up = fields.get("uplc")
+    bs = [c for c in walk(up) if c.get("k") == "Call" and last(call_name(c) or "") == "bytestring"] if up else []
+    it = [c for c in walk(up) if c.get("k") == "Call" and last(call_name(c) or "") == "integer"] if up else []
+    rep.check(len(bs) == 1 and len(_reversals(bs[0])) == 1 and re.search(r"\b%s\b" % re.escape(par), sh.nsrc(TF, bs[0])), "R16-REPLAY", "from_choices#bytes-reversed-once", sh.loc(TF, lit[0]), "the byte string handed to the on-chain Replayed PRNG must be the given sequence reversed exactly once (found %d bytestring field(s), %s reversal(s))" % (len(bs), [len(_reversals(b)) for b in bs]))
+    rep.check(len(it) == 1 and re.sub(r"\.into\(\)", "", sh.nsrc(TF, it[0]["args"][0])) == "%s.len()" % par, "R16-REPLAY", "from_choices#cursor-is-length", sh.loc(TF, lit[0]), "the Replayed PRNG's cursor must start at the number of choices (`%s.len()`); found `%s`" % (par, sh.nsrc(TF, it[0]["args"][0]) if it else "-"))
+
+
+# ---------------------------------------------------------------------------------------------------------
+# R16-ITER: the iteration count is a function of the runs executed
+# ---------------------------------------------------------------------------------------------------------
+def r_iter(sh, rep):
+    """PropertyTest::run reports `n - remaining` iterations. run_n_times must decrement `remaining` once per run_once that
+    returned, not under a condition, and must stop at the first counterexample; run_once's `?` leaves the counter
+    untouched, which is what run's `+ 1` in the error case accounts for."""
+    f = find_method(sh.file(TF), "PropertyTest", "run_n_times")
+    rep.touched(TF, "PropertyTest::run_n_times")
+    loops = [n for n in walk(f["body"]) if n.get("k") == "While"]
+    if len(loops) != 1:
+        raise AnchorMissing("one while loop in run_n_times (found %d)" % len(loops))
+    lp = loops[0]
+    cond = sh.nsrc(TF, lp["cond"])
+    rep.check("*remaining>0" in cond and "counterexample.is_none()" in cond and "&&" in cond and "||" not in cond, "R16-ITER", "run_n_times#loop-condition", sh.loc(TF, lp), "the loop must run while runs remain and no counterexample was kept (found `%s`)" % cond, sample={"cond": cond})
+    top = lp["body"].get("stmts", [])
+    decs = [st for st in top if re.fullmatch(r"(\*remaining-=1|\*remaining=\*remaining-1);?", sh.nsrc(TF, st))]
+    alld = [n for n in walk(lp["body"]) if n.get("k") in ("AssignOp", "Assign", "Binary") and re.match(r"^\*remaining(-=|=\*remaining-)", sh.nsrc(TF, n))]
+    runs = [n for n in walk(lp["body"]) if n.get("k") == "MethodCall" and n["m"] == "run_once"]
+    rep.check(len(decs) == 1 and len(alld) <= 1 and len(runs) == 1, "R16-ITER", "run_n_times#one-unconditional-decrement-per-run", sh.loc(TF, lp), "each iteration must call run_once once and decrement `remaining` by one at the top level of the loop body (top-level decrements %d, all decrements %d, run_once calls %d)" % (len(decs), len(alld), len(runs)), sample={"decrements": len(decs)})
+
+
+# ---------------------------------------------------------------------------------------------------------
+# R16-SAMEEVAL: one oracle for "does this value falsify the property"
+# ---------------------------------------------------------------------------------------------------------
+def r_sameeval(sh, rep):
+    """A counterexample is real iff re-applying the property to it fails. The verdict on a value is produced in three
+    places — the seeded run, the replay closure of the shrinker's cache, and PropertyTest::run's final report — and a
+    shrunk value is reported on the strength of the replay alone. All three must therefore be the same evaluation: the
+    same method of the test, and inside it one budget. A replay under a smaller budget keeps candidates that merely ran
+    out of budget, and the reported counterexample passes when re-applied."""
+    fj = sh.file(TF)
+    names = {}
+    for mname in ("run_once", "run"):
+        f = find_method(fj, "PropertyTest", mname)
+        rep.touched(TF, "PropertyTest::" + mname)
+        for n in walk(f["body"]):
+            if n.get("k") == "MethodCall" and n["m"].startswith("eval") and sh.nsrc(TF, n["recv"]) == "self":
+                names.setdefault(n["m"], []).append((mname, n))
+    sites = sum(len(v) for v in names.values())
+    rep.check(len(names) == 1 and sites >= 3, "R16-SAMEEVAL", "PropertyTest#one-evaluation-function", sh.loc(TF, list(names.values())[0][0][1]) if names else TF, "the property is evaluated through %s at %d site(s) of run / run_once; the seeded run, the shrinker's replay and the final report must all call the same method" % (sorted(names), sites), sample={"methods": sorted(names), "sites": sites})
+    budgets = {}
+    for q, f in all_fns(fj):
+        if not (q.startswith("PropertyTest::") or q in ("Prng::sample",)) or "body" not in f:
+            continue
+        for n in walk(f["body"]):
+            if n.get("k") == "Call" and (call_name(n) or "").startswith("ExBudget::"):
+                budgets.setdefault(call_name(n), []).append((q, n))
+            if n.get("k") == "Struct" and last(n.get("p", "")) == "ExBudget":
+                budgets.setdefault("ExBudget{..}", []).append((q, n))
+    rep.check(sorted(budgets) == ["ExBudget::max"], "R16-SAMEEVAL", "PropertyTest#one-budget", sh.loc(TF, [v for k, v in budgets.items() if k != "ExBudget::max"][0][0][1]) if [k for k in budgets if k != "ExBudget::max"] else TF, "property tests and fuzzers must run under ExBudget::max() everywhere; found %s" % {k: [q for q, _ in v] for k, v in budgets.items()}, sample={"budgets": {k: len(v) for k, v in budgets.items()}})
+    ev = find_method(fj, "PropertyTest", "eval")
+    inner = [n for n in walk(ev["body"]) if n.get("k") == "MethodCall" and n["m"] in ("eval_version", "eval")]
+    rep.check(len(inner) == 1 and "ExBudget::max()" in sh.nsrc(TF, inner[0]), "R16-SAMEEVAL", "PropertyTest::eval#max-budget", sh.loc(TF, ev), "PropertyTest::eval must evaluate once, under ExBudget::max()")
